@@ -67,8 +67,8 @@ def schema_files(s) -> dict:
         body += '<xs:element name="box"><xs:complexType><xs:sequence><xs:element ref="l:m1" minOccurs="0"/></xs:sequence></xs:complexType></xs:element>'
     if s["ext"] != "none":
         body += '<xs:element name="e" type="l:Base"/>'
-    if s["grp"]:
-        body += '<xs:group ref="t:G"/>'
+    if s["grp"] != "none":
+        body += '<xs:group ref="t:G"' + {"one": "", "opt": ' minOccurs="0"', "many": ' maxOccurs="unbounded"'}[s["grp"]] + "/>"
     if s["rec"]:
         body += '<xs:element name="n" type="t:Node"/>'
     if s["wild"] != "none":
